@@ -83,6 +83,14 @@ fn kinematic_sweeps(e: &mut Eng) {
             sts.push((State::new_raw(-5.2, (v as f64 * r) as f32, a), 700_000_000));
             sts.push((State::new_raw(-5.2, (v as f64 * r) as f32, a), -700_000_000));
         }
+        // consecutive steps of equal states whose intervals agree in their low 32 / 16 bits, and of
+        // equal intervals with one component changed: update is a pure function of (state, dt)
+        for dt in [S, S + (1i64 << 32), S, S - (1i64 << 32), S / 4, S / 4 + (3i64 << 32), S / 4 + (1 << 16), S / 4] {
+            sts.push((State::new_raw(2.6, v, a), dt));
+        }
+        for (dp, dv, da) in [(0.0f32, 0.0f32, 0.0f32), (1.0, 0.0, 0.0), (0.0, 1.0, 0.0), (0.0, 0.0, 1.0), (0.0, 0.0, 0.0), (0.0, -0.0, 0.0)] {
+            sts.push((State::new_raw(2.6 + dp, v + dv, a + da), S));
+        }
     }
     for (s, dt) in sts {
         e.executions += 1;
